@@ -660,7 +660,7 @@ pub fn main(tier: Tier, seed: u64) -> Report {
     if !regress.is_empty() {
         runner::run_cases(&mut rep, "regress", regress, run_case);
     }
-    let cases = tier.pick(6000, 300_000);
+    let cases = tier.pick(20_000, 300_000);
     runner::run_generated(&mut rep, "gen", cases, || strategy(tier), run_case);
     rep
 }
